@@ -529,7 +529,7 @@ void run(const uint8_t* data, size_t size) {
       switch (cls) {
         case 0: bytes = delta % 17; break;
         case 1: bytes = delta; break;
-        case 2: bytes = ps - 128 - 8 + delta % 17; break;                // around the room left next to an in-page page array
+        case 2: bytes = (ps >= 136 ? ps - 136 : 0) + delta % 17; break;                // around the room left next to an in-page page array
         case 3: bytes = ps - delta % 17; break;                         // just below / at a page
         case 4: bytes = ps + 1 + delta % 8; break;                      // just above a page: oversize
         case 5: bytes = 2 * ps + delta; break;
